@@ -73,7 +73,7 @@ def build_sandbox(S, targets):
     """canary files at every target that is not also needed as a directory"""
     tset = {tuple(t) for t in targets if t}
     dirs = set()
-    for resv in (('w', 'foo'), ('out',), ('home', '.lexaloffle', 'pico-8', 'carts', 'foo'), ('home', '.lexaloffle', 'pico-8', 'cartsbar', 'foo')):
+    for resv in (('w', 'foo'), ('w', 'fo?'), ('out',), ('home', '.lexaloffle', 'pico-8', 'carts', 'foo'), ('home', '.lexaloffle', 'pico-8', 'cartsbar', 'foo')):
         for k in range(1, len(resv) + 1):
             dirs.add(resv[:k])
     for t in tset:
@@ -139,11 +139,20 @@ def _require_case(item):
     if key not in _SB:
         S = tempfile.mkdtemp(prefix='c12r_%s_' % case['cfg'], dir=tmp)
         build_sandbox(S, targets[0] if outside_only else targets)
-        os.makedirs(os.path.join(S, 'w', 'foo'), exist_ok=True)
+        os.makedirs(os.path.join(S, *case['maindir']), exist_ok=True)
         os.makedirs(os.path.join(S, 'out'), exist_ok=True)
+        if case['cfg'] == 'qdir':
+            # decoys where a loader that substitutes the placeholder inside the directory name would look
+            for c in ('a', 'foo', 'foobar'):
+                dd = os.path.join(S, 'w', 'fo' + c)
+                os.makedirs(dd, exist_ok=True)
+                for fn in (c, c + '.lua'):
+                    if not os.path.exists(os.path.join(dd, fn)):
+                        with open(os.path.join(dd, fn), 'wb') as f:
+                            f.write(b'decoy=1\n')
         _SB[key] = S
     S = _SB[key]
-    main = os.path.join(S, 'w', 'foo', 'main.lua')
+    main = os.path.join(S, *case['maindir'], 'main.lua')
     a = render_arg(arg, S, semi_abs=True)
     with open(main, 'wb') as f:
         f.write(b'local m = require("' + a.encode() + b'")\nprint(m)\n')
@@ -201,7 +210,7 @@ def arg_class(arg):
 def run_mode(ctx, mode, maxlen):
     r = ctx.tlc('PathJail', GEN % (maxlen, mode), name='GenPathJail_' + mode)
     recs = r.jsons
-    ctx.evaluations += len(recs) * (3 if mode == 'include' else 4)
+    ctx.evaluations += len(recs) * (3 if mode == 'include' else 5)
     items = []
     if mode == 'include':
         for li in range(3):
@@ -210,7 +219,7 @@ def run_mode(ctx, mode, maxlen):
                 items.append((x['arg'], x['cases'][li], targets, ctx.tmp))
         fn = _include_case
     else:
-        for ci in range(4):
+        for ci in range(5):
             targets = [c['target'] for x in recs for c in x['cases'][ci]['cands']]
             # second sandbox: canaries only at the resolutions that lie OUTSIDE the roots, so that a
             # loader that falls through to an escaping candidate is caught opening it
